@@ -62,6 +62,7 @@ def run(chk, repo: Repo):
     chk.rule("C16-R6", "Levenberg-Marquardt: accepting the trial point replaces every quantity that was computed from the iterate "
                        "(residual, Jacobian, objective) by its trial twin in the same branch", floor=3)
     _r6(chk, repo)
+    _r6_damping_floor(chk, repo)
 
 
 def _r1(chk, repo):
@@ -210,6 +211,33 @@ def _r1_result_returned(chk, repo):
                 "no raising exit after the iteration loop: the computed iterate is returned",
                 f"`{unparse(raises[0])[:60] if raises else 'no return'}` after the iteration loop: the solver refuses to hand back the iterate it computed whenever a post-loop "
                 f"heuristic fires (the shrink test compares with the largest iterate norm, which starts at |x0|), i.e. on regular problems started far from the solution", raises[0] if raises else fn)
+
+
+def _r6_damping_floor(chk, repo):
+    """Levenberg-Marquardt: every increase of the damping parameter (rejected step, poorly predicted accepted step) is `nu = max(omup*nu, nu0)` with the
+    SAME floor nu0 (the configured initial damping).  With another floor (the step-quality threshold mu0 = 0, say) a rejected step in Gauss-Newton mode
+    (nu == 0) leaves nu at 0: the identical step is recomputed and rejected until maxit, and a non-stationary iterate is returned."""
+    from ..flow import Expander
+    from .common import canon_fn
+    ci = repo.cls(f"{SOLVER}:LM")
+    src = repo.method(ci, "solve")[1]
+    ex = Expander(canon_fn(repo, ci, src, 1))
+    floors = []
+    for n in ex.cfg.nodes:
+        a = n.ast
+        if n.kind == "stmt" and isinstance(a, ast.Assign) and isinstance(a.value, ast.Call) and call_name(a.value) == "max" and len(a.value.args) == 2 \
+                and isinstance(a.targets[0], ast.Name):
+            nu = a.targets[0].id
+            args = a.value.args
+            grow = [x for x in args if any(isinstance(y, ast.Name) and y.id == nu for y in ast.walk(x))]
+            rest = [x for x in args if x not in grow]
+            if len(grow) == 1 and len(rest) == 1:
+                floors.append((_norm(ex.expand(rest[0], n)), a))
+    vals = sorted({f for f, _ in floors})
+    ok = len(floors) >= 2 and vals == ["self.nu0"]
+    chk.add("C16-R6", f"{ci.qual}.solve/damping-floor", ok, site(repo, floors[0][1]) if floors else site(repo, src), "every damping increase is max(omup*nu, self.nu0)",
+            f"the damping increases use the floors {vals} ({len(floors)} sites), not self.nu0 at every site: with floor 0 a rejected Gauss-Newton step (nu == 0) is retried "
+            f"unchanged until maxit", floors[0][1] if floors else src)
 
 
 def _r2(chk, repo):
